@@ -85,6 +85,8 @@ impl E {
     pub fn lua_(&self, pad: usize, tight: bool) -> String {
         let p = "x".repeat(pad);
         match self {
+            // atoms 700..=799 are long-bracket strings (their first character is `[`)
+            E::Atom(n) if (700..800).contains(n) => format!("[[s{}{}]]", n, p),
             E::Atom(n) => format!("a{}{}", n, p),
             E::Call(n) => format!("c{}{}()", n, p),
             E::Varargs => "...".into(),
@@ -222,6 +224,12 @@ pub fn of_ast(e: &Expression) -> E {
             }
             // any other call is still a multi-value call
             E::Call(1_000_000 + hash(&strip(e)))
+        }
+        Expression::String(t) if t.token().to_string().starts_with("[[s7") => {
+            match name_num(&t.token().to_string()[2..]) {
+                Some(('s', k)) if (700..800).contains(&k) => E::Atom(k),
+                _ => opaque(e),
+            }
         }
         Expression::Symbol(t) if t.token().to_string() == "..." => E::Varargs,
         Expression::Var(ast::Var::Name(n)) => match name_num(&n.token().to_string()) {
